@@ -1,5 +1,6 @@
 """Evaluate abstract programs with TLC (spec/AldorSem.tla) and run their renderings through the real compiler."""
 import json
+import re
 import os
 import sys
 
@@ -14,8 +15,18 @@ def tlc_eval(progs, workers=None, timeout=900, cfg="AldorSem", module="AldorSem"
     module: a module that EXTENDS AldorSem (e.g. AldorSemW32: 32-bit machine integer), with its own cfg."""
     d = vlib.scratch("progs")
     path = os.path.join(d, "progs.ndjson")
-    vlib.write_ndjson(path, progs)
-    res = vlib.tlc(module, cfg, workers=workers, env={"PROGS": path}, timeout=timeout)
+    progs = list(progs)
+    dropped = []
+    for _attempt in range(6):
+        vlib.write_ndjson(path, progs)
+        res = vlib.tlc(module, cfg, workers=workers, env={"PROGS": path}, timeout=timeout)
+        # an Integer that grows beyond the reach of BigZ.tla (32-bit column sums) aborts the whole TLC run:
+        # such a program is outside the evaluable family; drop it and evaluate the rest
+        m = re.search(r"/\\ pid = (\d+)", res.out) if (res.error and "Overflow when computing" in res.out) else None
+        if not m:
+            break
+        dropped.append(progs.pop(int(m.group(1)) - 1)["id"])
+    res.dropped_overflow = dropped
     out = {}
     for line in res.printed:
         if isinstance(line, str) and line.startswith("BEHAV "):
